@@ -10,8 +10,8 @@ theorem flatten_filterMap_groups (g : Nat → List Key) (is : List Nat) :
   | nil => rfl
   | cons i is ih =>
     by_cases h : g i = []
-    · simp [List.filterMap_cons, h, ih]
-    · simp [List.filterMap_cons, h, ih]
+    · simp [h, ih]
+    · simp [h, ih]
 
 theorem flatten_groupsAsc (n : Nat) (sh : Key → Nat) (keys : List Key) :
     (groupsAsc n sh keys).flatten = (List.range n).flatMap (fun i => keys.filter (fun k => sh k = i)) := by
